@@ -21,14 +21,14 @@ type Failure struct {
 }
 
 type Result struct {
-	Evaluations  int64            `json:"evaluations"`
-	Sigs         []uint64         `json:"sigs,omitempty"` // distinct non-trivial case signatures
-	Samples      []any            `json:"samples,omitempty"`
-	Labels       map[string]int64 `json:"labels,omitempty"`
-	Failures     []Failure        `json:"failures,omitempty"`
-	KnownHits    map[string]int64 `json:"known_hits,omitempty"`
-	Inconclusive []string         `json:"inconclusive,omitempty"`
-	Extra        map[string]any   `json:"extra,omitempty"`
+	Evaluations  int64               `json:"evaluations"`
+	Sigs         []uint64            `json:"sigs,omitempty"` // distinct non-trivial case signatures
+	Samples      []any               `json:"samples,omitempty"`
+	Labels       map[string]int64    `json:"labels,omitempty"`
+	Failures     []Failure           `json:"failures,omitempty"`
+	KnownHits    map[string]int64    `json:"known_hits,omitempty"`
+	Inconclusive []string            `json:"inconclusive,omitempty"`
+	Extra        map[string]any      `json:"extra,omitempty"`
 	Lists        map[string][]string `json:"lists,omitempty"`
 
 	sigset map[uint64]struct{}
